@@ -31,6 +31,11 @@ def make_test(cfg):
     from shangrla.core.NonnegMean import NonnegMean
 
     kw = dict(cfg["kw"])
+    if cfg.get("decoy"):
+        # another contest's test was configured in this process first, with its own tuning parameters: none of them
+        # is this test's business
+        NonnegMean(test=NonnegMean.betting_mart, bet=NonnegMean.fixed_bet, u=1, N=np.inf, t=0.1, lam=5.0, eta=0.97, c=0.9, d=1,
+                   f=3.0, minsd=0.5, g=0.5, rate_error_2=0.2)
     u = cfg["u"]
     if float(u).is_integer() and (cfg["N"] or 0) % 2 == 1:
         u = int(u)   # the audit code constructs its tests with the integer 1 (and an integer upper bound is as good as a float)
@@ -46,6 +51,10 @@ def make_test(cfg):
         args["estim"] = getattr(NonnegMean, cfg["estim"])
     if cfg.get("bet"):
         args["bet"] = getattr(NonnegMean, cfg["bet"])
+    if cfg.get("implicit"):
+        # the documented defaults: no estimator / bet and no eta / lam given (fixed alternative half-way between t and u,
+        # fixed bet 1/2) - cfg["kw"] holds exactly those default values
+        args.pop("estim", None), args.pop("bet", None), kw.pop("eta", None), kw.pop("lam", None)
     u0 = cfg.get("u0")
     if u0:
         # the audit code builds its tests before margins are known and installs the bound afterwards (`test.u = ...`):
@@ -151,6 +160,13 @@ def config(draw, family, dyadic=False, max_N=60, min_N=1, ut=None, dyadic_g=Fals
         # the constructor accepts the flag for every test; C11 quantifies over both settings
         # (the finite-population SPRT documents that it refuses random_order=False: checked in C11)
         cfg["random_order"] = draw(st.sampled_from([True, True, True, False])) if base != "sprt-fin" else True
+    cfg["decoy"] = draw(st.sampled_from([False, False, True]))
+    if base in ("alpha-fixed", "bet-fixed") and cfg["u0"] is None and u <= 2 and draw(st.integers(0, 4)) == 0:
+        cfg["implicit"] = True
+        if base == "alpha-fixed":
+            kw["eta"] = t + (u - t) / 2
+        else:
+            kw["lam"] = 0.5
     if dyadic or dyadic_g:
         for k in ("g",):
             if k in kw:
